@@ -47,6 +47,16 @@ func runCrashProperty(t *rapid.T, pc crashProgCfg) {
 		return map[string]any{"history": x.Log, "unstable": unstable, "disksize": size}
 	}
 	var stepErr error
+	if pc.WriteBias {
+		// the subject is data: make sure there are files to write to, and aim at them
+		g.Cfg.BadRefs, g.Cfg.WrongKind = 1, 0
+		for _, name := range []string{"a", "b", "c"}[:rapid.IntRange(2, 3).Draw(t, "nfiles")] {
+			cr.Step(func() error { stepErr = x.Create(LiveRef(x.M.Root), name); return nil })
+			if stepErr != nil {
+				failf(t, pc.Prop, detail(), "live run: %v", stepErr)
+			}
+		}
+	}
 	base := g.Actions(func(t *rapid.T, err error) { stepErr = err })
 	wrap := func(f func(*rapid.T)) func(*rapid.T) {
 		return func(t *rapid.T) {
